@@ -119,7 +119,9 @@ InsRefs(ren, sw, x, refs, k) ==
    The agenda is a stack of [src, pos]: pos = 0 "about to enter the source".  A binding is
    pushed on its name's stack; an autoload binding is then collapsed against WHAT IS LOADED SO
    FAR, must be a configsection, is instantiated, and the source it returns is loaded in place
-   before the rest of the enclosing source.                                                  *)
+   before the rest of the enclosing source.  Neither a source as a whole (checked on entry) nor
+   a later binding of the source being loaded may define a name that is collapsed already:
+   the cached collapse would hide the new definition for good.                               *)
 RECURSIVE Load(_, _)
 Load(x, ag) ==
   IF x.err # "" \/ ag = <<>> THEN x
@@ -133,7 +135,9 @@ Load(x, ag) ==
              old  == IF n \in DOMAIN x.stk THEN x.stk[n] ELSE <<>>
              x1   == [x EXCEPT !.stk = Put(x.stk, n, <<f.src>> \o old)]
              rest == <<[f EXCEPT !.pos = @ + 1]>> \o Tail(ag)
-         IN IF n \notin AutoNames THEN Load(x1, rest)
+         IN IF RefuseRedefinition /\ n \in DOMAIN x.ren       \* collapsed meanwhile by an autoload of this very source
+            THEN [x EXCEPT !.err = "ConfigurationError"]
+            ELSE IF n \notin AutoNames THEN Load(x1, rest)
             ELSE LET c == Col(x1.stk, x1.ren, n, {}) IN
                  IF c.st # "ok" THEN [x1 EXCEPT !.ren = c.ren, !.err = "ConfigurationError"]
                  ELSE IF TypeOfDef(DefAt(c.ren[n], n)) # "configsection"
